@@ -14,6 +14,9 @@ pub const DISK_FAULTS: [&str; 12] = [
     "short", "torn", "lost_sector", "stale_tail", "bitrot", "overwrite", "misdirected", "dup_sector", "misnamed", "sauce_tail_only", "comnt_cut", "header_extreme",
 ];
 
+/// Faults of the clipboard channel (bytes another process put there), on top of the generic ones.
+pub const IPC_FAULTS: [&str; 3] = ["clip_char_value", "clip_header_count", "clip_record_size"];
+
 pub fn gen_doc(rng: &mut Rng, max_w: i32, max_h: i32) -> Buffer {
     let w = match rng.below(6) {
         0 => 1,
@@ -407,6 +410,44 @@ pub fn disk_fault(rng: &mut Rng, kind: &str, name: &mut String, bytes: &mut Vec<
                 "comnt_cut noop".into()
             }
         }
+        "clip_char_value" => {
+            // a 16-bit character field holding a value that is not a scalar value (or a boundary next to one)
+            if len < 17 + 14 {
+                return "clip_char_value noop".into();
+            }
+            let cells = (len - 17) / 14;
+            let c = rng.usize(cells);
+            let v: u16 = *rng.pick(&[0xD7FF, 0xD800, 0xDABC, 0xDBFF, 0xDC00, 0xDEAD, 0xDFFF, 0xE000, 0xFFFF, 0]);
+            bytes[17 + c * 14..17 + c * 14 + 2].copy_from_slice(&v.to_le_bytes());
+            format!("clip_char_value cell={c} value={v:#x}")
+        }
+        "clip_header_count" => {
+            if len < 17 {
+                return "clip_header_count noop".into();
+            }
+            let which = 9 + 4 * rng.usize(2);
+            let v: u32 = *rng.pick(&[0, 1, 2, 255, 65_535, 65_536, 0x7fff_ffff, 0xffff_ffff]);
+            bytes[which..which + 4].copy_from_slice(&v.to_le_bytes());
+            format!("clip_header_count field_at={which} value={v}")
+        }
+        "clip_record_size" => {
+            // payload from a "different version": every record two bytes longer or shorter
+            if len < 17 + 14 {
+                return "clip_record_size noop".into();
+            }
+            let grow = rng.chance(1, 2);
+            let mut out = bytes[..17].to_vec();
+            for rec in bytes[17..].chunks(14) {
+                if grow {
+                    out.extend_from_slice(rec);
+                    out.extend_from_slice(&[0, 0]);
+                } else {
+                    out.extend_from_slice(&rec[..rec.len().min(12)]);
+                }
+            }
+            *bytes = out;
+            format!("clip_record_size grow={grow}")
+        }
         "header_extreme" => {
             // a header field holding an extreme value (C03's "declared sizes")
             if len < 4 {
@@ -448,8 +489,8 @@ pub fn gen_load(prop: &'static str, rng: &mut Rng, _run: u64, _thorough: bool) -
             _ => 3,
         };
         for _ in 0..n {
-            let kind = *rng.pick(&DISK_FAULTS);
             let is_buffer = entry == "Buffer::from_bytes";
+            let kind = if entry == "Layer::from_clipboard_data" && rng.chance(1, 2) { *rng.pick(&IPC_FAULTS) } else { *rng.pick(&DISK_FAULTS) };
             let other = |r: &mut Rng| -> Vec<u8> {
                 if is_buffer {
                     let d = gen_doc(r, 80, 30);
